@@ -151,3 +151,62 @@ func (c *Ctx) GlobalNeverReassigned(rule, spec string) {
 	}
 	c.Ob(rule, spec+" is assigned only by its initialiser", pos, true, "no store and no address-taking outside the package initialiser in the loaded module")
 }
+
+// varInitExpr returns the initialiser expression of a package-level variable and its package.
+func (c *Ctx) varInitExpr(pkg, name string) (ast.Expr, *types.Info) {
+	p := c.Pkg(pkg)
+	obj := p.Types.Scope().Lookup(name)
+	for _, f := range p.Syntax {
+		for _, d := range f.Decls {
+			gd, ok := d.(*ast.GenDecl)
+			if !ok || gd.Tok != token.VAR {
+				continue
+			}
+			for _, s := range gd.Specs {
+				vs := s.(*ast.ValueSpec)
+				for k, n := range vs.Names {
+					if p.TypesInfo.Defs[n] == obj && k < len(vs.Values) {
+						return vs.Values[k], p.TypesInfo
+					}
+				}
+			}
+		}
+	}
+	return nil, p.TypesInfo
+}
+
+// mapLiteralKeys: the key expressions (as source text) of a package-level map variable's composite literal.
+func mapLiteralKeys(c *Ctx, pkg, name string) map[string]bool {
+	e, _ := c.varInitExpr(pkg, name)
+	out := map[string]bool{}
+	cl, ok := e.(*ast.CompositeLit)
+	if !ok {
+		return out
+	}
+	for _, el := range cl.Elts {
+		if kv, ok := el.(*ast.KeyValueExpr); ok {
+			out[types.ExprString(kv.Key)] = true
+		}
+	}
+	return out
+}
+
+// compositeFieldInts: integer-valued fields of a package-level struct variable's composite literal.
+func compositeFieldInts(c *Ctx, pkg, name string) map[string]int64 {
+	e, info := c.varInitExpr(pkg, name)
+	out := map[string]int64{}
+	cl, ok := e.(*ast.CompositeLit)
+	if !ok {
+		return out
+	}
+	for _, el := range cl.Elts {
+		kv, ok := el.(*ast.KeyValueExpr)
+		if !ok {
+			continue
+		}
+		if v, ok := astConstInt(info, kv.Value); ok {
+			out[types.ExprString(kv.Key)] = v
+		}
+	}
+	return out
+}
